@@ -14,7 +14,8 @@ CONSTANTS MaxParams, Enabled, Shard, NShards
 Fmts == <<"class", "pydantic", "function", "argparse">>
 Styles == {"rest", "google", "numpydoc"}
 ExecTyps == Typs \ {"absent", "Dotted"}            \* resolvable from typing + builtins
-ExecParams == ParamsOver(ExecTyps, Defs \ {"code"}, {"plain", "absent"})        \* described or without any prose
+\* described, without any prose, or described with a sentence that merely MENTIONS the word "defaults" (no `defaults to X` phrase)
+ExecParams == ParamsOver(ExecTyps, Defs \ {"code"}, {"plain", "absent", "word_defaults"})
 SmallParams == ParamsOver({"int", "Opt_str", "Lit"}, {"absent", "None", "int_pos", "str"}, {"plain"})
 ParamSeqs == {<<p>> : p \in ExecParams} \cup (IF MaxParams >= 2 THEN {<<p, r>> : p \in ExecParams, r \in SmallParams} ELSE {})
 
